@@ -165,7 +165,7 @@ def validate(ctx, events, name, shards=16, timeout=2400):
         walls.append(round(time.time() - t, 1))
         return r
 
-    with cf.ThreadPoolExecutor(max_workers=len(files)) as ex:
+    with cf.ThreadPoolExecutor(max_workers=min(16, len(files))) as ex:    # more shards than workers: dynamic balancing
         for m, _ in ex.map(work, files):
             mism += m
     # the per-file stage entries are noise: fold them into one
@@ -310,32 +310,37 @@ def run(ctx):
         report(ctx, validate(ctx, events, "c16", shards=16, timeout=2700))
         return
 
-    # ---- (M) toy parameters: sign-then-verify for every digest, WOTS for every message, XMSS for every leaf
-    with cf.ThreadPoolExecutor(max_workers=3) as ex:
-        f_mc = ex.submit(lambda: ctx.model_check("MC_SLHToy", "MC_SLHToy_full" if ctx.thorough else None, stage="M:MC_SLHToy",
-                                                 workers=8 if ctx.thorough else 4, heap="4g", must_cover=False, timeout=2400))
-        # ---- (R) specification-made signatures
-        which = ["SLH-DSA-SHA2-128f", "SLH-DSA-SHAKE-128f"]
-        if ctx.thorough:
-            which = [n for n in NAMES if n.endswith("f")] + ["SLH-DSA-SHA2-128s", "SLH-DSA-SHAKE-128s"]
-        f_plan = ex.submit(lambda: spec_made_signatures(ctx, kats, which))
-        # ---- real code
-        r = ctx.run([drv, "-out", trace], timeout=3000)
-        ctx.log(r.stdout.strip())
-        plan, nplan = f_plan.result()
-        mc = f_mc.result()
+    # ---- (M) toy parameters and (R) specification-made signatures run beside the real-code stages
+    ex = cf.ThreadPoolExecutor(max_workers=2)
+    f_mc = ex.submit(lambda: ctx.model_check("MC_SLHToy", "MC_SLHToy_full" if ctx.thorough else None, stage="M:MC_SLHToy",
+                                             workers=8 if ctx.thorough else 4, heap="4g", must_cover=False, timeout=3600))
+    which = ["SLH-DSA-SHA2-128f", "SLH-DSA-SHAKE-128f"]
+    if ctx.thorough:
+        which = [n for n in NAMES if n.endswith("f")] + ["SLH-DSA-SHA2-128s", "SLH-DSA-SHAKE-128s"]
+    f_plan = ex.submit(lambda: spec_made_signatures(ctx, kats, which))
+
+    # ---- (T) real code -> specification
+    r = ctx.run([drv, "-out", trace], timeout=3000)
+    ctx.log(r.stdout.strip())
+    events = [json.loads(x) for x in open(trace).read().splitlines() if x.strip()]
+    ctx.stage("gate:known-answers", events=len(gate), level=level)
+    mism = validate(ctx, gate + events, "c16", shards=64 if ctx.thorough else 32, timeout=7200 if ctx.thorough else 1800)
+    ctx.cov["traces_validated_against_impl"] += 1
+
+    # ---- (R) specification -> real code: Tink's verdict on the signatures the specification made
+    plan, nplan = f_plan.result()
     ptrace = os.path.join(ctx.scratch, "c16.plan.ndjson")
     ctx.run([drv, "-out", ptrace, "-plan", plan], timeout=600)
-    events = [json.loads(x) for x in open(trace).read().splitlines() if x.strip()]
     pevents = [json.loads(x) for x in open(ptrace).read().splitlines() if x.strip()]
     if len(pevents) != 2 * nplan:
         raise vlib.Infra("driver verified %d of %d specification-made signatures" % (len(pevents), 2 * nplan))
     ctx.stage("R:spec-made-signatures", signed_by_spec=nplan, verify_events=len(pevents), sets=which)
-    ctx.stage("gate:known-answers", events=len(gate), level=level)
+    mism += validate(ctx, pevents, "c16plan", shards=min(16, len(pevents)), timeout=1800)
+    if any(e["mut"] == "spec-made" and not e["ok"] for e in pevents) and not mism:
+        raise vlib.Infra("Tink rejected a specification-made signature but the trace spec did not flag it")
+    f_mc.result()
+    ex.shutdown()
 
-    allev = gate + events + pevents
-    mism = validate(ctx, allev, "c16", shards=16, timeout=7200 if ctx.thorough else 1800)
-    ctx.cov["traces_validated_against_impl"] += 1
     ctx.cov["events"] = len(events) + len(pevents)
     by = {}
     for e in events + pevents:
@@ -348,13 +353,17 @@ def run(ctx):
         if e["ev"] == "verify" and e["mut"] in ("none", "R") or e["ev"] in ("keygen", "split", "adrs"):
             ctx.sample(e)
 
-    # coverage expectations (not oracles): every mutation class must be present, Tink must accept its own signatures somewhere
+    # coverage expectations (not oracles): every mutation class must be present, all twelve sets exercised
     muts = set(sig_class(e) for e in events if e["ev"] == "verify")
     for need in ("none", "R", "fors-sk", "fors-auth", "wots-chain", "xmss-auth", "len-1", "len+1", "msg-bit", "pk-seed", "pk-root"):
         if need not in muts:
             raise vlib.Infra("coverage hole: no verify event of class %s" % need)
     if set(e["ps"] for e in events if e["ev"] == "verify") != set(NAMES):
         raise vlib.Infra("coverage hole: not all twelve parameter sets were exercised")
+    for nm in NAMES:     # Tink must accept its own signatures for every set (else the reject verdicts would be vacuous)
+        if not any(e["ev"] == "verify" and e["ps"] == nm and e["ok"] and e["mut"] == "none" for e in events):
+            if not mism:
+                raise vlib.Infra("coverage hole: no accepted signature for %s" % nm)
 
     report(ctx, mism)
     if not mism:
